@@ -170,6 +170,19 @@ private theorem Revoked.step {s : State} {c : Cid} (h : Revoked s c) (inv : Inv 
           · exact h2 hp
         exact ⟨x, by simp [this, hx], hp⟩
       · exact ⟨x, hx, hp⟩
+  have hexit : ∀ k, Revoked (exitActor s k) c := by
+    intro k
+    unfold exitActor
+    split
+    · exact ⟨x, hx, hp⟩
+    · next y hy =>
+      split
+      · next hph =>
+        by_cases hck : c = k
+        · subst hck
+          exact ⟨{ y with phase := .closed }, by simp, Or.inl rfl⟩
+        · exact ⟨x, by simp [hck, hx], hp⟩
+      · exact ⟨x, hx, hp⟩
   cases op with
   | request id =>
     have hk : c ≠ s.nextCid := by
@@ -196,18 +209,12 @@ private theorem Revoked.step {s : State} {c : Cid} (h : Revoked s c) (inv : Inv 
           rcases hp with hp | ⟨hp, _⟩ <;> rw [hph] at hp <;> cases hp
         exact ⟨x, by simp [this, hx], hp⟩
       · exact ⟨x, hx, hp⟩
-  | actorExit k =>
-    simp only [C08.step]
-    split
-    · exact ⟨x, hx, hp⟩
-    · next y hy =>
-      split
-      · next hph =>
-        by_cases hck : c = k
-        · subst hck
-          exact ⟨{ y with phase := .closed }, by simp, Or.inl rfl⟩
-        · exact ⟨x, by simp [hck, hx], hp⟩
-      · exact ⟨x, hx, hp⟩
+  | actorExit k => exact hexit k
+  | arrive k => exact ⟨x, hx, hp⟩
+  | actorStep k =>
+    rcases actorStepWith_cases cancelArmFirst s k with h | ⟨h1, _, _, _⟩
+    · rw [C08.step, C08.actorStep, h]; exact hexit k
+    · exact ⟨x, by rw [C08.step, C08.actorStep, h1]; exact hx, hp⟩
 
 /-- PARTIAL (the property on the complement of the finding): a disconnect request that arrives
 when the connection is registered — by its connection id or by its endpoint id — is honoured
@@ -270,6 +277,79 @@ theorem «partial» (s : State) (hs : Reachable s) (c : Cid) (x : Conn) (hx : s.
       rw [hwcl] at hvp; cases hvp
     simp [inRegistry, hw, this]
 
+/-- REVOKED ⇒ NOTHING FURTHER IS HANDLED.  A disconnect request that finds the connection
+registered (by connection id or endpoint id) stops its actor at the next loop iteration WHATEVER
+else is ready: for any backlog of inbound frames already written by the client (`s.inbox c` is
+arbitrary), any frames that keep arriving afterwards (`arrive c` ops in `ops`) and any schedule,
+the actor of `c` takes and handles no inbound frame after the request — the counter of handled
+frames never moves again (the code checks the cancellation arm first: `cancelArmFirst`, regenerated
+from the source; at most the iteration that was already running, which in the model is the atomic
+step before the request, completes). -/
+theorem revoked_handles_nothing (s : State) (hs : Reachable s) (c : Cid) (x : Conn) (hx : s.conns c = some x)
+    (hreg : inRegistry s c = true) (sel : Option Cid) (hsel : Targets sel c) (ops : List Op) :
+    (runFrom (step s (.disconnect x.owner sel)) ops).handled c = s.handled c := by
+  have inv := Inv.of_reachable hs
+  have hmem : c ∈ s.entries x.owner := by simpa [inRegistry, hx] using hreg
+  obtain ⟨y, hy, hyp, _⟩ := inv.reg_of_mem _ c hmem
+  rw [hx] at hy; cases hy
+  have hhit : hit s x.owner sel c = true := by
+    rcases hsel with h | h <;> simp [hit, h, hmem]
+  have h1 : Revoked (step s (.disconnect x.owner sel)) c :=
+    ⟨{ x with cancelled := true }, by
+      rw [show C08.step s (.disconnect x.owner sel) = disconnect s x.owner sel from rfl,
+        disconnect_conns, hx, hhit]; simp, Or.inr ⟨hyp, rfl⟩⟩
+  have h0 : (step s (.disconnect x.owner sel)).handled c = s.handled c := by
+    show (disconnect s x.owner sel).handled c = _
+    rw [disconnect_handled]
+  suffices h : ∀ (ops : List Op) (t : State), Inv t → Revoked t c → (runFrom t ops).handled c = t.handled c by
+    rw [h ops _ (inv.step _) h1, h0]
+  intro ops
+  induction ops with
+  | nil => intro t _ _; rfl
+  | cons op ops ih =>
+    intro t it hr
+    show (runFrom (step t op) ops).handled c = _
+    rw [ih _ (it.step op) (hr.step it op)]
+    rcases step_handled t op c with h | ⟨_, z, hz, hzp, hzc⟩
+    · exact h
+    · -- impossible: a revoked connection is closed, or registered with its token cancelled
+      obtain ⟨w, hw, hwp⟩ := hr
+      rw [hz] at hw; cases hw
+      rcases hwp with hcl | ⟨_, hcan⟩
+      · rw [hcl] at hzp; cases hzp
+      · rw [hcan] at hzc
+        exact absurd hzc (by decide)
+
+/-- Why the position of the cancellation arm matters (model of the arm moved to the end of the
+`biased` select): a registered connection whose token is cancelled and whose client has a frame
+pending is still served — the frame is taken and handled, the connection stays registered — so a
+peer that keeps its socket non-empty would never be dropped. -/
+theorem cancel_arm_last_keeps_serving (s : State) (c : Cid) (x : Conn) (hx : s.conns c = some x)
+    (hp : x.phase = .registered) (_hc : x.cancelled = true) (hin : 0 < s.inbox c) :
+    let s' := actorStepWith false s c
+    s'.handled c = s.handled c + 1 ∧ s'.conns c = some x ∧ s'.entries = s.entries := by
+  simp [actorStepWith, hx, hp, hin]
+
+/-- …whereas the loop of the code as it is drops it at once, backlog or not. -/
+theorem cancel_arm_first_drops (s : State) (hs : Reachable s) (c : Cid) (x : Conn) (hx : s.conns c = some x)
+    (hp : x.phase = .registered) (hc : x.cancelled = true) :
+    (actorStep s c).handled c = s.handled c ∧ inRegistry (actorStep s c) c = false := by
+  have inv := Inv.of_reachable hs
+  have e : actorStep s c = exitActor s c := by
+    simp [actorStep, actorStepWith, hx, hp, hc]
+  rw [e, exitActor_handled]
+  refine ⟨rfl, ?_⟩
+  have inv' := inv.exitActor c
+  have hw : (exitActor s c).conns c = some { x with phase := .closed } := by
+    simp [exitActor, hx, hp]
+  cases hm : inRegistry (exitActor s c) c with
+  | false => rfl
+  | true =>
+    have hmem : c ∈ (exitActor s c).entries x.owner := by simpa [inRegistry, hw] using hm
+    obtain ⟨v, hv, hvp, _⟩ := inv'.reg_of_mem _ c hmem
+    rw [hw] at hv; cases hv
+    cases hvp
+
 /-- Converse reading of `partial`: if a connection that the embedder asked to disconnect is
 served later on, then it was not registered at the moment of the request — the request fell
 into the window before `Clients::register` (or before admission). -/
@@ -288,11 +368,12 @@ theorem lost_only_in_window (s : State) (hs : Reachable s) (c : Cid) (x : Conn) 
   have : inRegistry s c = true := by simpa [inRegistry, hx] using this
   rw [hnr] at this; cases this
 
-/-- A step of the revocation of endpoint `id`: a disconnect request for `id`, or the exit of an
-actor of a connection owned by `id`. -/
+/-- A step of the revocation of endpoint `id`: a disconnect request for `id`, or a loop iteration
+/ the exit of an actor of a connection owned by `id`. -/
 def RevocationStep (s : State) (id : Id) : Op → Prop
   | .disconnect id' _ => id' = id
   | .actorExit c => ∀ x, s.conns c = some x → x.owner = id
+  | .actorStep c => ∀ x, s.conns c = some x → x.owner = id
   | _ => False
 
 /-- Others unaffected: a disconnect request for endpoint `id` and everything it causes (the
@@ -321,6 +402,39 @@ theorem others_unaffected (s : State) (id : Id) (ops : List Op) (hs : Inv s)
     -- one revocation step leaves `k`, its entry and all owners alone
     have hstep : (step t op).conns k = some y ∧ (step t op).entries y.owner = t.entries y.owner ∧
         (∀ c x, (step t op).conns c = some x → ∃ x0, s.conns c = some x0 ∧ x0.owner = x.owner) := by
+      have hexit : ∀ c, (∀ x, s.conns c = some x → x.owner = id) →
+          (exitActor t c).conns k = some y ∧ (exitActor t c).entries y.owner = t.entries y.owner ∧
+          (∀ c' x, (exitActor t c).conns c' = some x → ∃ x0, s.conns c' = some x0 ∧ x0.owner = x.owner) := by
+        intro c hop
+        cases hc : t.conns c with
+        | none =>
+          have e : exitActor t c = t := by simp only [C08.exitActor, hc]
+          rw [e]; exact ⟨ht, rfl, hown⟩
+        | some z =>
+          by_cases hph : z.phase = .registered
+          · have e : exitActor t c =
+                setEntry (setConn t c { z with phase := .closed }) z.owner
+                  (removeConn c (t.entries z.owner)) := by
+              simp only [C08.exitActor, hc, hph, if_true]
+            rw [e]
+            obtain ⟨x0, hx0, hox⟩ := hown c z hc
+            have hzo : z.owner = id := by rw [← hox]; exact hop x0 hx0
+            have hkc : k ≠ c := by
+              rintro rfl
+              rw [ht] at hc; cases hc
+              exact hne hzo
+            have hoo : y.owner ≠ z.owner := by rw [hzo]; exact hne
+            refine ⟨by simp [hkc, ht], by simp [hoo], ?_⟩
+            intro c' x' hx'
+            by_cases hcc : c' = c
+            · subst hcc
+              simp at hx'
+              subst hx'
+              exact ⟨x0, hx0, hox⟩
+            · simp [hcc] at hx'
+              exact hown c' x' hx'
+          · have e : exitActor t c = t := by simp only [C08.exitActor, hc, hph, if_false]
+            rw [e]; exact ⟨ht, rfl, hown⟩
       cases op with
       | request _ => exact absurd hop (by simp [RevocationStep])
       | allow _ => exact absurd hop (by simp [RevocationStep])
@@ -355,36 +469,13 @@ theorem others_unaffected (s : State) (id : Id) (ops : List Op) (hs : Inv s)
             obtain ⟨x0, hx0, hox⟩ := hown c z hc
             refine ⟨x0, hx0, ?_⟩
             rw [hox, ← this]; split <;> rfl
-      | actorExit c =>
-        cases hc : t.conns c with
-        | none =>
-          have e : step t (.actorExit c) = t := by simp only [C08.step, hc]
-          rw [e]; exact ⟨ht, rfl, hown⟩
-        | some z =>
-          by_cases hph : z.phase = .registered
-          · have e : step t (.actorExit c) =
-                setEntry (setConn t c { z with phase := .closed }) z.owner
-                  (removeConn c (t.entries z.owner)) := by
-              simp only [C08.step, hc, hph, if_true]
-            rw [e]
-            obtain ⟨x0, hx0, hox⟩ := hown c z hc
-            have hzo : z.owner = id := by rw [← hox]; exact hop x0 hx0
-            have hkc : k ≠ c := by
-              rintro rfl
-              rw [ht] at hc; cases hc
-              exact hne hzo
-            have hoo : y.owner ≠ z.owner := by rw [hzo]; exact hne
-            refine ⟨by simp [hkc, ht], by simp [hoo], ?_⟩
-            intro c' x' hx'
-            by_cases hcc : c' = c
-            · subst hcc
-              simp at hx'
-              subst hx'
-              exact ⟨x0, hx0, hox⟩
-            · simp [hcc] at hx'
-              exact hown c' x' hx'
-          · have e : step t (.actorExit c) = t := by simp only [C08.step, hc, hph, if_false]
-            rw [e]; exact ⟨ht, rfl, hown⟩
+      | arrive _ => exact absurd hop (by simp [RevocationStep])
+      | actorExit c => exact hexit c hop
+      | actorStep c =>
+        rcases actorStepWith_cases cancelArmFirst t c with h | ⟨h1, h2, _, _⟩
+        · rw [C08.step, C08.actorStep, h]; exact hexit c hop
+        · rw [C08.step, C08.actorStep]
+          exact ⟨by rw [h1]; exact ht, by rw [h2], fun c' x' hx' => hown c' x' (by rw [← h1]; exact hx')⟩
     obtain ⟨h1, h2, h3⟩ := hstep
     have := ih (step t op) (invt.step op) h3 hrest h1
     exact ⟨this.1, this.2.trans h2⟩
@@ -430,5 +521,15 @@ example :
       subst hx; rfl
   · simp [run, runFrom, step, advance, init, setConn, setEntry]
   · simp [run, runFrom, step, advance, init, setConn, setEntry, served]
+
+/-- `revoked_handles_nothing` applies to a connection with a backlog: before the request the
+actor does handle the pending frames, after it none of the remaining ones. -/
+example :
+    let s := run [.request 7, .allow 0, .confirm 0 true, .register 0, .arrive 0, .arrive 0, .arrive 0, .actorStep 0]
+    Reachable s ∧ inRegistry s 0 = true ∧ s.handled 0 = 1 ∧ s.inbox 0 = 2 ∧
+      (runFrom (step s (.disconnect 7 (some 0))) [.actorStep 0, .arrive 0, .actorStep 0]).handled 0 = 1 := by
+  refine ⟨Reachable.runFrom .init _, ?_, ?_, ?_, ?_⟩ <;>
+    simp [run, runFrom, step, actorStep, actorStepWith, exitActor, advance, disconnect, cancel, init, setConn,
+      setEntry, inRegistry, removeConn]
 
 end IrohModel.C08
